@@ -14,7 +14,7 @@ BOUNDS = dict(quick='L1: n <= 5 (n = 7 with concrete tent-shaped distances and f
                     'L0: slices through 4 pool curves and a 7-point curve with tied ordering scores (thorough: plus a 13-point periodic zigzag) (one symbolic height, symbolic thresholds) with the real kernels and the real cache',
               thorough='L1: n <= 6, threshold lists of length <= 3; L0: 12 pool curves, all five metrics')
 ASSUMPTIONS = ['exact real arithmetic (T1)', 't > 0 (t <= 1 for R2)', 'L1: distance, ordering score and global cost are free reals keyed by segment / breakpoint set']
-CONFIG = dict(quick=dict(budget_s=170, case_wall_s=150, max_paths=30000), thorough=dict(budget_s=900, case_wall_s=700, max_paths=600000))
+CONFIG = dict(quick=dict(budget_s=170, case_wall_s=150, max_paths=30000), thorough=dict(max_cases=450, budget_s=900, case_wall_s=700, max_paths=600000))
 SPECIAL = dict(zigzag=ZIGZAG, tie7=TIE7)
 DIST = ['shortest', 'perpendicular']
 ORD = ['segment', 'triangle', 'area']
